@@ -1,6 +1,1160 @@
-//! C14 — not built yet.
-use crate::core::Ctx;
+//! C14 — comparing numbers of different kinds through NumOrd / AbsOrd gives the order of their
+//! exact real values; numerically equal numbers of different types have the same NumHash.
+//!
+//! Every (ordered) pair of types with a `NumOrd` or `AbsOrd` impl (inventory below, taken from the
+//! three `third_party/num_order.rs` files, the `cmp.rs` cross impls and `base/src/sign.rs`) is
+//! instantiated — the module does not compile if one is missing — and run over all pairs of the
+//! value lists of the two types.  Reference: exact rationals over num_bigint, symbolic handling of
+//! astronomically scaled floats (`h14.rs`); ranks in one common total order are precomputed.
+
+#[path = "h14.rs"]
+mod h14;
+
+use self::h14::*;
+use crate::core::{guard, Ctx, Rec};
+use crate::fref::*;
+use crate::uni::*;
+use dashu_base::AbsOrd;
+use dashu_float::round::mode;
+use dashu_float::{Context, FBig, Repr};
+use dashu_int::{IBig, UBig, Word};
+use dashu_ratio::{RBig, Relaxed};
+use num_bigint::BigInt;
+use num_integer::Integer;
+use num_order::{NumHash, NumOrd};
+use num_traits::{NumCast, One, Pow, Signed, Zero};
+use std::cmp::Ordering;
+use std::collections::{BTreeMap, BTreeSet};
+use std::hash::{Hash, Hasher};
+
+const P: &str = "C14";
+
+// ---------------------------------------------------------------------------------------------
+// typed values
+
+pub struct Item<T> {
+    x: T,
+    id: u32,
+    how: String,
+}
+
+#[derive(Default)]
+struct Builder {
+    vals: Vec<Val>,
+}
+impl Builder {
+    fn item<T>(&mut self, x: T, v: Val, how: String) -> Item<T> {
+        self.vals.push(v);
+        Item { x, id: (self.vals.len() - 1) as u32, how }
+    }
+}
+
+fn p2(k: u32) -> BigInt {
+    BigInt::one() << k
+}
+
+/// integer points: closed universe I3 (quick: atoms {0,1,2,2^32,2^63,MAX-1,MAX}), small integers, the
+/// neighbourhoods of 2^24, 2^53, 2^64, 2^128, of every primitive type bound and of the f32/f64
+/// range limits (largest finite value, MANTISSA_DIGITS + MAX_EXP bit-length cut-off)
+fn int_points(quick: bool, seed: u64) -> Vec<BigInt> {
+    let mut s: BTreeSet<BigInt> = BTreeSet::new();
+    let mags = if quick { closed_mags(&[0, 1, 2, 1 << 32, 1 << 63, u64::MAX - 1, u64::MAX], 3) } else { i3_mags() };
+    s.extend(signed(&mags));
+    for n in -20i64..=20 {
+        s.insert(BigInt::from(n));
+    }
+    let mut around = |c: BigInt| {
+        for d in -1i32..=1 {
+            s.insert(&c + d);
+            s.insert(-(&c + d));
+        }
+    };
+    for k in [24u32, 53, 64, 128] {
+        around(p2(k));
+    }
+    for bits in [7u32, 8, 15, 16, 31, 32, 63, 64, 127, 128] {
+        around(p2(bits));
+    }
+    for (mant, maxexp) in [(24u32, 128u32), (53, 1024)] {
+        around(p2(maxexp) - p2(maxexp - mant)); // largest finite float
+        around(p2(maxexp));
+        around(p2(maxexp - 1));
+        around(p2(mant + maxexp - 1));
+        around(p2(mant + maxexp));
+        around(p2(mant + maxexp + 1));
+    }
+    let x = BigInt::from(shape(3, "lcgSeed", seed));
+    s.insert(-x.clone());
+    s.insert(x);
+    // astronomically large integers (equal / adjacent to floats with exponent 10^6)
+    for x in [p2(1_000_000), p2(1_000_000) + 1, p2(1_000_000) - 1, p2(4_000_000)] {
+        s.insert(-x.clone());
+        s.insert(x);
+    }
+    s.into_iter().collect()
+}
+
+fn next_f64(x: f64, up: bool) -> f64 {
+    // neighbour of a finite value (towards +inf if up)
+    if x == 0.0 {
+        let t = f64::from_bits(1);
+        return if up { t } else { -t };
+    }
+    let b = x.to_bits();
+    let away = (x > 0.0) == up;
+    f64::from_bits(if away { b + 1 } else { b - 1 })
+}
+fn next_f32(x: f32, up: bool) -> f32 {
+    if x == 0.0 {
+        let t = f32::from_bits(1);
+        return if up { t } else { -t };
+    }
+    let b = x.to_bits();
+    let away = (x > 0.0) == up;
+    f32::from_bits(if away { b + 1 } else { b - 1 })
+}
+
+fn f64_points(small: &[(BigInt, i64)]) -> Vec<f64> {
+    let mut v: Vec<f64> = vec![0.0, -0.0, f64::INFINITY, f64::NEG_INFINITY, f64::NAN];
+    let anchors: Vec<f64> = vec![
+        1.0, 0.5, 0.1, 1.0 / 3.0, 1.5, 2.0, 3.0, 7.0, 8.0, 16.0, 0.001, 1e-10, 1e22, 1e23, 16777215.0, 16777216.0, 2f64.powi(31), 2f64.powi(32), 2f64.powi(53), 2f64.powi(63), 2f64.powi(64), 2f64.powi(100),
+        2f64.powi(127), 2f64.powi(128), f32::MAX as f64, f32::MIN_POSITIVE as f64, 2f64.powi(-149), 2f64.powi(-24), 2f64.powi(1023), f64::MAX, f64::MIN_POSITIVE, f64::from_bits(1), f64::from_bits((1u64 << 52) - 1),
+    ];
+    for a in anchors {
+        for s in [1.0, -1.0] {
+            let x = a * s;
+            v.push(x);
+            for up in [false, true] {
+                let y = next_f64(x, up);
+                if y.is_finite() {
+                    v.push(y);
+                }
+            }
+        }
+    }
+    for (s, e) in small {
+        let m: f64 = NumCast::from(s.clone()).unwrap();
+        v.push(m * 2f64.powi(*e as i32));
+    }
+    // distinct bit patterns, first occurrence order
+    let mut seen = BTreeSet::new();
+    v.retain(|x| seen.insert(x.to_bits()));
+    v
+}
+
+fn f32_points(small: &[(BigInt, i64)]) -> Vec<f32> {
+    let mut v: Vec<f32> = vec![0.0, -0.0, f32::INFINITY, f32::NEG_INFINITY, f32::NAN];
+    let anchors: Vec<f32> = vec![
+        1.0, 0.5, 0.1, 1.0 / 3.0, 1.5, 2.0, 3.0, 7.0, 8.0, 16.0, 0.001, 1e-10, 1e10, 16777215.0, 16777216.0, 2f32.powi(31), 2f32.powi(32), 2f32.powi(53), 2f32.powi(63), 2f32.powi(64), 2f32.powi(100), 2f32.powi(127),
+        f32::MAX, f32::MIN_POSITIVE, f32::from_bits(1), f32::from_bits((1u32 << 23) - 1), 2f32.powi(-24),
+    ];
+    for a in anchors {
+        for s in [1.0, -1.0] {
+            let x = a * s;
+            v.push(x);
+            for up in [false, true] {
+                let y = next_f32(x, up);
+                if y.is_finite() {
+                    v.push(y);
+                }
+            }
+        }
+    }
+    for (s, e) in small {
+        let m: f32 = NumCast::from(s.clone()).unwrap();
+        v.push(m * 2f32.powi(*e as i32));
+    }
+    let mut seen = BTreeSet::new();
+    v.retain(|x| seen.insert(x.to_bits()));
+    v
+}
+
+/// (2^k + d) / 2^j fractions shared by floats and rationals
+fn bin_fracs() -> Vec<(BigInt, u32)> {
+    let mut v = vec![];
+    for k in [24u32, 53, 64] {
+        for d in [-1i32, 1] {
+            for j in [1u32, 3, 64, 70] {
+                v.push((p2(k) + d, j));
+                v.push((-(p2(k) + d), j));
+            }
+        }
+    }
+    v
+}
+
+/// f64 values whose exact binary expansions are reproduced in the other types (with +-1 in the
+/// last place)
+fn f64_anchors() -> Vec<f64> {
+    vec![0.1, 1.0 / 3.0, f64::from_bits(1), f64::MAX, f32::MAX as f64, 2f64.powi(-149), -0.1]
+}
+
+pub const HUGE_EXPS: [i64; 8] = [300, -300, 5000, -5000, 1_000_000, -1_000_000, 1_000_000_000, -1_000_000_000];
+
+/// (significand, exponent) points of base `base`
+fn float_points(base: u32, p: u32, e: i64) -> Vec<(BigInt, i64)> {
+    let mut v = f_universe(base, p, e);
+    for n in -20i64..=20 {
+        v.push((BigInt::from(n), 0));
+    }
+    for k in [24u32, 53, 64, 128] {
+        for d in -1i32..=1 {
+            v.push((p2(k) + d, 0));
+            v.push((-(p2(k) + d), 0));
+        }
+    }
+    // s * 2^e2 written in this base (exact), if possible
+    let from_bin = |s: &BigInt, e2: i64| -> Option<(BigInt, i64)> {
+        if base.is_power_of_two() {
+            let t = base.trailing_zeros() as i64;
+            let q = Integer::div_floor(&e2, &t);
+            let r = e2 - q * t;
+            Some((s << (r as u32), q))
+        } else if base % 2 == 0 {
+            // base = 2 * h: 2^-j = h^j / base^j
+            if e2 >= 0 {
+                Some((s << (e2 as u32), 0))
+            } else {
+                Some((s * Pow::pow(BigInt::from(base / 2), (-e2) as u64), e2))
+            }
+        } else if e2 >= 0 {
+            Some((s << (e2 as u32), 0))
+        } else {
+            None
+        }
+    };
+    for (s, j) in bin_fracs() {
+        if let Some(x) = from_bin(&s, -(j as i64)) {
+            v.push(x);
+        }
+    }
+    for f in f64_anchors() {
+        let (m, e2) = decode_f64(f);
+        for d in -1i32..=1 {
+            if let Some(x) = from_bin(&(&m + d), e2) {
+                v.push(x);
+            }
+        }
+    }
+    for ex in HUGE_EXPS {
+        for s in [1i64, -1, base as i64 - 1, -(base as i64 - 1)] {
+            v.push((BigInt::from(s), ex));
+        }
+    }
+    // 64-bit binary neighbours of 10^e and 3^e (adjacent values in different bases at large exponents)
+    if base.is_power_of_two() {
+        for (b, ex) in [(10u32, 300i64), (10, -300), (10, 5000), (10, -5000), (3, 700), (3, -700)] {
+            let x = Rat::scaled(&BigInt::one(), b, ex);
+            // x ~ m * 2^sh with a 64-bit m
+            let sh = x.floor_log(2) - 63;
+            let m = if sh >= 0 { x.n.clone() >> (sh as u32) } else { (&x.n << ((-sh) as u32)) / &x.d };
+            for d in 0i32..=1 {
+                if let Some(p) = from_bin(&(&m + d), sh) {
+                    v.push(p.clone());
+                    v.push((-p.0, p.1));
+                }
+            }
+        }
+    }
+    // distinct values (normalised representation)
+    let mut seen = BTreeSet::new();
+    let b = BigInt::from(base);
+    v.retain(|(s, e)| {
+        let (mut s, mut e) = (s.clone(), *e);
+        if s.is_zero() {
+            e = 0;
+        } else {
+            while (&s % &b).is_zero() {
+                s /= &b;
+                e += 1;
+            }
+        }
+        seen.insert((s, e))
+    });
+    v
+}
+
+/// (numerator, denominator > 0) points, not necessarily reduced
+fn rat_points(n_max: i64, d_max: i64, ints: &[BigInt]) -> Vec<(BigInt, BigInt)> {
+    let mut v = vec![];
+    for d in 1..=d_max {
+        for n in -n_max..=n_max {
+            v.push((BigInt::from(n), BigInt::from(d)));
+        }
+    }
+    for k in [24u32, 53, 64, 128] {
+        for d in -1i32..=1 {
+            v.push((p2(k) + d, BigInt::one()));
+            v.push((-(p2(k) + d), BigInt::one()));
+        }
+    }
+    for (s, j) in bin_fracs() {
+        v.push((s, p2(j)));
+    }
+    for (n, d) in [(1, 10), (3, 10), (1, 3), (2, 3), (-1, 3), (22, 7), (-1, 10)] {
+        v.push((BigInt::from(n), BigInt::from(d)));
+    }
+    for f in f64_anchors() {
+        let (m, e2) = decode_f64(f);
+        for d in -1i32..=1 {
+            if e2 >= 0 {
+                v.push(((&m + d) << (e2 as u32), BigInt::one()));
+            } else {
+                v.push((&m + d, p2((-e2) as u32)));
+            }
+        }
+    }
+    for j in [149u32, 150, 1074, 1075, 1100] {
+        v.push((BigInt::one(), p2(j)));
+        v.push((-BigInt::one(), p2(j)));
+        v.push((BigInt::from(3), p2(j)));
+    }
+    v.push((p2(1100), BigInt::one()));
+    v.push((p2(1100) + 1, p2(3)));
+    // neighbours of powers of ten
+    let t300 = Pow::pow(BigInt::from(10), 300u32);
+    for d in -1i32..=1 {
+        v.push((&t300 + d, BigInt::one()));
+        v.push((BigInt::one(), &t300 + d));
+        v.push((-BigInt::one(), &t300 + d));
+    }
+    let t5000 = Pow::pow(BigInt::from(10), 5000u32);
+    v.push((t5000.clone() + 1, BigInt::one()));
+    v.push((BigInt::one(), t5000 + 1));
+    // multi-word numerators and denominators, common factors
+    let big: Vec<&BigInt> = ints.iter().filter(|x| x.bits() > 128 && x.bits() < 4096).step_by((ints.len() / 12).max(1)).collect();
+    let g = p2(64) + 1;
+    for a in big {
+        v.push((a.clone(), BigInt::from(u64::MAX)));
+        v.push((BigInt::from(u64::MAX), a.abs()));
+        v.push((a * &g, &g * 3));
+    }
+    for (n, d) in [(1, 3), (-7, 5), (4, 2)] {
+        v.push((BigInt::from(n) * &g, BigInt::from(d) * &g));
+    }
+    v
+}
+
+// ---------------------------------------------------------------------------------------------
+// typed lists
+
+macro_rules! prim_lists {
+    ($($f:ident : $t:ty),*) => {
+        pub struct Prims { $(pub $f: Vec<Item<$t>>,)* pub f32s: Vec<Item<f32>>, pub f64s: Vec<Item<f64>> }
+        fn build_prims(bd: &mut Builder, ints: &[BigInt], f32v: &[f32], f64v: &[f64]) -> Prims {
+            Prims {
+                $($f: ints.iter().filter_map(|n| { let x: Option<$t> = NumCast::from(n.clone()); x.map(|x| bd.item(x, val_int(n), format!("{}{}", x, stringify!($t)))) }).collect(),)*
+                f32s: f32v.iter().map(|&x| bd.item(x, val_f32(x), format!("{:e}f32 (bits {:#x})", x, x.to_bits()))).collect(),
+                f64s: f64v.iter().map(|&x| bd.item(x, val_f64(x), format!("{:e}f64 (bits {:#x})", x, x.to_bits()))).collect(),
+            }
+        }
+    };
+}
+prim_lists!(u8s: u8, u16s: u16, u32s: u32, u64s: u64, u128s: u128, usizes: usize, i8s: i8, i16s: i16, i32s: i32, i64s: i64, i128s: i128, isizes: isize);
+
+pub struct FL<const B: Word> {
+    z: Vec<Item<FBig<mode::Zero, B>>>,
+    h: Vec<Item<FBig<mode::HalfAway, B>>>,
+    r: Vec<Item<Repr<B>>>,
+}
+
+fn norm_digits(s: &BigInt, base: u32) -> usize {
+    if s.is_zero() {
+        return 0;
+    }
+    let b = BigInt::from(base);
+    let mut s = s.abs();
+    while (&s % &b).is_zero() {
+        s /= &b;
+    }
+    digits_b(&s, base)
+}
+
+fn build_fl<const B: Word>(bd: &mut Builder, pts: &[(BigInt, i64)]) -> FL<B> {
+    let mut fl = FL { z: vec![], h: vec![], r: vec![] };
+    for (i, (s, e)) in pts.iter().enumerate() {
+        let v = val_scaled(s, B as u32, *e);
+        let d = norm_digits(s, B as u32);
+        let precs = [0usize, d.max(1), d + 5];
+        let (pz, ph) = (precs[i % 3], precs[(i + 1) % 3]);
+        let how = format!("{}*{}^{}", show_int(s), B, e);
+        fl.r.push(bd.item(mk_repr::<B>(s, *e), v.clone(), format!("Repr<{}> {}", B, how)));
+        fl.z.push(bd.item(FBig::from_repr(mk_repr::<B>(s, *e), Context::new(pz)), v.clone(), format!("FBig<Zero,{}> {} (precision {})", B, how, pz)));
+        fl.h.push(bd.item(FBig::from_repr(mk_repr::<B>(s, *e), Context::new(ph)), v, format!("FBig<HalfAway,{}> {} (precision {})", B, how, ph)));
+    }
+    for (r, v, name, p) in [(Repr::<B>::infinity(), Val::PosInf, "+inf", 0usize), (Repr::<B>::neg_infinity(), Val::NegInf, "-inf", 0), (Repr::<B>::infinity(), Val::PosInf, "+inf", 7)] {
+        if p == 0 {
+            fl.r.push(bd.item(r.clone(), v.clone(), format!("Repr<{}> {}", B, name)));
+        }
+        fl.z.push(bd.item(FBig::from_repr(r.clone(), Context::new(p)), v.clone(), format!("FBig<Zero,{}> {} (precision {})", B, name, p)));
+        fl.h.push(bd.item(FBig::from_repr(r, Context::new(p)), v, format!("FBig<HalfAway,{}> {} (precision {})", B, name, p)));
+    }
+    fl
+}
+
+/// F(B,P,E) x every admissible precision of {0, 1, digits, digits+5}: the same-type AbsOrd of
+/// FBig looks at the precision
+fn build_fp<const B: Word>(bd: &mut Builder, p: u32, e: i64) -> Vec<Item<FBig<mode::Zero, B>>> {
+    let mut out = vec![];
+    for (s, ex) in f_universe(B as u32, p, e) {
+        let d = norm_digits(&s, B as u32);
+        let mut precs = vec![0usize, d.max(1), d + 5];
+        if d <= 1 && !precs.contains(&1) {
+            precs.push(1);
+        }
+        for pr in precs {
+            out.push(bd.item(FBig::from_repr(mk_repr::<B>(&s, ex), Context::new(pr)), val_scaled(&s, B as u32, ex), format!("FBig<Zero,{}> {}*{}^{} (precision {})", B, s, B, ex, pr)));
+        }
+    }
+    for (r, v, name) in [(Repr::<B>::infinity(), Val::PosInf, "+inf"), (Repr::<B>::neg_infinity(), Val::NegInf, "-inf")] {
+        out.push(bd.item(FBig::from_repr(r, Context::new(3)), v, format!("FBig<Zero,{}> {} (precision 3)", B, name)));
+    }
+    out
+}
+
+// ---------------------------------------------------------------------------------------------
+// blocks: many typed sub-universes walked as one sweep
+
+type CaseFn<'a> = Box<dyn Fn(u64, &mut Rec) + Sync + 'a>;
+struct Blocks<'a> {
+    v: Vec<(String, u64, CaseFn<'a>)>,
+}
+impl<'a> Blocks<'a> {
+    fn new() -> Self {
+        Blocks { v: vec![] }
+    }
+    fn add(&mut self, label: String, n: u64, f: impl Fn(u64, &mut Rec) + Sync + 'a) {
+        if n > 0 {
+            self.v.push((label, n, Box::new(f)));
+        }
+    }
+    fn run(self, ctx: &mut Ctx, name: &str) {
+        let mut starts = Vec::with_capacity(self.v.len());
+        let mut total = 0u64;
+        for (_, n, _) in &self.v {
+            starts.push(total);
+            total += n;
+        }
+        let blocks = &self.v;
+        let st = &starts;
+        ctx.sweep(name, total, |i, rec| {
+            let k = st.partition_point(|&s| s <= i) - 1;
+            let (label, _, f) = &blocks[k];
+            rec.hit(label);
+            f(i - st[k], rec)
+        });
+        let labels: Vec<&str> = self.v.iter().map(|b| b.0.as_str()).collect();
+        ctx.require_classes(name, &labels);
+        ctx.bound(&format!("{}.type_pairs", name), self.v.len() as u64);
+    }
+}
+
+/// signature class of a pair: sign / zero / infinity / NaN / astronomic scale of the two values
+fn sig_class(tab: &Tab, a: u32, b: u32) -> String {
+    let t = |id: u32| match tab.cls[id as usize] {
+        "+sub1" | "+small" | "+large" => "+",
+        "-sub1" | "-small" | "-large" => "-",
+        "+astro" | "+astroinv" => "+astro",
+        "-astro" | "-astroinv" => "-astro",
+        c => c,
+    };
+    format!("{}/{}", t(a), t(b))
+}
+/// call-site name without the rounding mode
+fn site(n: &str) -> String {
+    n.replace("Zero,", "").replace("HalfAway,", "")
+}
+
+fn rel_name(o: Option<Ordering>) -> &'static str {
+    match o {
+        None => "rel:unordered(NaN)",
+        Some(Ordering::Less) => "rel:less",
+        Some(Ordering::Equal) => "rel:equal",
+        Some(Ordering::Greater) => "rel:greater",
+    }
+}
+
+/// a.num_*(b) against the reference
+fn ord_case<A: NumOrd<B>, B>(rec: &mut Rec, tab: &Tab, na: &str, a: &Item<A>, nb: &str, b: &Item<B>, deep: bool) {
+    let want = tab.want(a.id, b.id);
+    let case = || format!("{}  vs  {}", a.how, b.how);
+    let cls = || sig_class(tab, a.id, b.id);
+    let (na, nb) = (&site(na), &site(nb));
+    rec.step();
+    match guard(|| a.x.num_partial_cmp(&b.x)) {
+        Ok(g) if g == want => {}
+        // the other methods are (mostly provided) wrappers of this one: one report per case
+        Ok(g) => return rec.fail(format!("{}|{}::num_partial_cmp({})|wrong-order|{}", P, na, nb, cls()), case(), format!("{:?}", g), format!("{:?}", want)),
+        Err(p) => return rec.fail(format!("{}|{}::num_partial_cmp({})|panic|{}", P, na, nb, cls()), case(), p, format!("{:?}", want)),
+    }
+    rec.step();
+    match (guard(|| a.x.num_cmp(&b.x)), want) {
+        (Ok(g), Some(w)) if g == w => {}
+        (Ok(g), Some(w)) => rec.fail(format!("{}|{}::num_cmp({})|wrong-order|{}", P, na, nb, cls()), case(), format!("{:?}", g), format!("{:?}", w)),
+        (Err(p), Some(w)) => rec.fail(format!("{}|{}::num_cmp({})|panic|{}", P, na, nb, cls()), case(), p, format!("{:?}", w)),
+        (Ok(g), None) => rec.fail(format!("{}|{}::num_cmp({})|missing-panic|{}", P, na, nb, cls()), case(), format!("{:?}", g), "panic (num_cmp with a NaN operand)"),
+        (Err(_), None) => rec.hit("num_cmp-panics-on-NaN"),
+    }
+    rec.step();
+    let weq = want == Some(Ordering::Equal);
+    match guard(|| (a.x.num_eq(&b.x), a.x.num_ne(&b.x))) {
+        Ok((e, n)) if e == weq && n != weq => {}
+        Ok(g) => rec.fail(format!("{}|{}::num_eq({})|wrong-value|{}", P, na, nb, cls()), case(), format!("(eq, ne) = {:?}", g), format!("{:?}", (weq, !weq))),
+        Err(p) => rec.fail(format!("{}|{}::num_eq({})|panic|{}", P, na, nb, cls()), case(), p, format!("{:?}", (weq, !weq))),
+    }
+    if deep {
+        rec.step();
+        let w = (want == Some(Ordering::Less), matches!(want, Some(Ordering::Less | Ordering::Equal)), want == Some(Ordering::Greater), matches!(want, Some(Ordering::Greater | Ordering::Equal)));
+        match guard(|| (a.x.num_lt(&b.x), a.x.num_le(&b.x), a.x.num_gt(&b.x), a.x.num_ge(&b.x))) {
+            Ok(g) if g == w => {}
+            Ok(g) => rec.fail(format!("{}|{}::num_lt..ge({})|wrong-value|{}", P, na, nb, cls()), case(), format!("(lt, le, gt, ge) = {:?}", g), format!("{:?}", w)),
+            Err(p) => rec.fail(format!("{}|{}::num_lt..ge({})|panic|{}", P, na, nb, cls()), case(), p, format!("{:?}", w)),
+        }
+    }
+}
+
+#[derive(Clone, Copy, PartialEq)]
+enum Astro3 {
+    /// skip pairs that are close at an astronomic scale
+    SkipNear,
+    /// only pairs that are close at an astronomic scale, with both log2 magnitudes <= 2^24
+    OnlyNear,
+}
+
+fn pair_classes(rec: &mut Rec, tab: &Tab, a: u32, b: u32, want: Option<Ordering>) {
+    rec.hit(rel_name(want));
+    if tab.near(a, b) {
+        rec.hit("near(|log2 a - log2 b| <= 2)");
+    }
+    if let Some(o) = want {
+        let (ra, rb) = (tab.rank[a as usize], tab.rank[b as usize]);
+        if o != Ordering::Equal && ra.abs_diff(rb) == 1 {
+            rec.hit("adjacent-in-universe");
+        }
+        if tab.vals[a as usize].is_finite_nonzero() && tab.vals[b as usize].is_finite_nonzero() {
+            rec.nontrivial();
+        }
+    }
+}
+
+/// decide whether the pair belongs to this sweep; counts the skipped ones
+fn astro_filter(rec: &mut Rec, tab: &Tab, a: u32, b: u32, mode: Astro3) -> bool {
+    let near = tab.near_astronomic(a, b);
+    match mode {
+        Astro3::SkipNear => {
+            if near {
+                rec.hit("skipped:close-pair-at-astronomic-scale");
+            }
+            !near
+        }
+        Astro3::OnlyNear => near && tab.max_l2(a, b) <= (1 << 24),
+    }
+}
+
+#[allow(clippy::too_many_arguments)]
+fn add_ord<'a, A, B>(bl: &mut Blocks<'a>, tab: &'a Tab, na: &'a str, va: &'a [Item<A>], nb: &'a str, vb: &'a [Item<B>], deep: bool, mode: Astro3)
+where
+    A: NumOrd<B> + Sync,
+    B: NumOrd<A> + Sync,
+{
+    let n = vb.len() as u64;
+    bl.add(format!("pair:{}~{}", na, nb), va.len() as u64 * n, move |i, rec| {
+        let (a, b) = (&va[(i / n) as usize], &vb[(i % n) as usize]);
+        if !astro_filter(rec, tab, a.id, b.id, mode) {
+            return;
+        }
+        ord_case(rec, tab, na, a, nb, b, deep);
+        ord_case(rec, tab, nb, b, na, a, deep);
+        pair_classes(rec, tab, a.id, b.id, tab.want(a.id, b.id));
+        rec.sample(|| format!("{} ~ {}: {}  vs  {}", na, nb, a.how, b.how));
+    });
+}
+
+fn abs_case<A: AbsOrd<B>, B>(rec: &mut Rec, tab: &Tab, na: &str, a: &Item<A>, nb: &str, b: &Item<B>) {
+    let want = tab.want_abs(a.id, b.id);
+    let case = || format!("|{}|  vs  |{}|", a.how, b.how);
+    let cls = || sig_class(tab, a.id, b.id);
+    let (na, nb) = (&site(na), &site(nb));
+    rec.step();
+    match (guard(|| a.x.abs_cmp(&b.x)), want) {
+        (Ok(g), Some(w)) if g == w => {}
+        (Ok(g), Some(w)) => rec.fail(format!("{}|{}::abs_cmp({})|wrong-order|{}", P, na, nb, cls()), case(), format!("{:?}", g), format!("{:?}", w)),
+        (Err(p), Some(w)) => rec.fail(format!("{}|{}::abs_cmp({})|panic|{}", P, na, nb, crate::core::panic_class(&p)), case(), p, format!("{:?}", w)),
+        (Ok(g), None) => rec.fail(format!("{}|{}::abs_cmp({})|missing-panic|{}", P, na, nb, cls()), case(), format!("{:?}", g), "panic (abs_cmp is documented to panic on NaN)"),
+        (Err(p), None) => {
+            if crate::core::is_internal_panic(&p) {
+                rec.fail(format!("{}|{}::abs_cmp({})|internal-panic|{}", P, na, nb, cls()), case(), p, "the documented NaN panic");
+            } else {
+                rec.hit("abs_cmp-panics-on-NaN")
+            }
+        }
+    }
+}
+
+fn add_abs<'a, A, B>(bl: &mut Blocks<'a>, tab: &'a Tab, na: &'a str, va: &'a [Item<A>], nb: &'a str, vb: &'a [Item<B>], mode: Astro3)
+where
+    A: AbsOrd<B> + Sync,
+    B: AbsOrd<A> + Sync,
+{
+    let n = vb.len() as u64;
+    bl.add(format!("abs:{}~{}", na, nb), va.len() as u64 * n, move |i, rec| {
+        let (a, b) = (&va[(i / n) as usize], &vb[(i % n) as usize]);
+        if !astro_filter(rec, tab, a.id, b.id, mode) {
+            return;
+        }
+        abs_case(rec, tab, na, a, nb, b);
+        abs_case(rec, tab, nb, b, na, a);
+        let want = tab.want_abs(a.id, b.id);
+        pair_classes(rec, tab, a.id, b.id, want);
+        if want == Some(Ordering::Equal) && tab.rank[a.id as usize] != tab.rank[b.id as usize] {
+            rec.hit("equal-magnitude-opposite-sign");
+        }
+        rec.sample(|| format!("{} ~ {}: |{}|  vs  |{}|", na, nb, a.how, b.how));
+    });
+}
+
+/// `$f!(…, name, list)` for the 12 primitive integer types and the two float types
+macro_rules! each_prim {
+    ($m:ident, $pr:expr, ($($pre:tt)*)) => {
+        $m!($($pre)*, "u8", &$pr.u8s); $m!($($pre)*, "u16", &$pr.u16s); $m!($($pre)*, "u32", &$pr.u32s); $m!($($pre)*, "u64", &$pr.u64s);
+        $m!($($pre)*, "u128", &$pr.u128s); $m!($($pre)*, "usize", &$pr.usizes); $m!($($pre)*, "i8", &$pr.i8s); $m!($($pre)*, "i16", &$pr.i16s);
+        $m!($($pre)*, "i32", &$pr.i32s); $m!($($pre)*, "i64", &$pr.i64s); $m!($($pre)*, "i128", &$pr.i128s); $m!($($pre)*, "isize", &$pr.isizes);
+        $m!($($pre)*, "f32", &$pr.f32s); $m!($($pre)*, "f64", &$pr.f64s);
+    };
+}
+
+// ---------------------------------------------------------------------------------------------
+// hashing
+
+#[derive(Default)]
+struct RecHasher(Vec<u8>);
+impl Hasher for RecHasher {
+    fn finish(&self) -> u64 {
+        0
+    }
+    fn write(&mut self, b: &[u8]) {
+        self.0.extend_from_slice(b)
+    }
+}
+
+trait HItem: Sync {
+    fn id(&self) -> u32;
+    fn ty(&self) -> &str;
+    fn how(&self) -> &str;
+    fn bytes(&self) -> Vec<u8>;
+}
+struct H<'a, T> {
+    it: &'a Item<T>,
+    ty: &'static str,
+}
+impl<T: NumHash + Sync> HItem for H<'_, T> {
+    fn id(&self) -> u32 {
+        self.it.id
+    }
+    fn ty(&self) -> &str {
+        self.ty
+    }
+    fn how(&self) -> &str {
+        &self.it.how
+    }
+    fn bytes(&self) -> Vec<u8> {
+        let mut h = RecHasher::default();
+        self.it.x.num_hash(&mut h);
+        h.0
+    }
+}
+fn push_h<'a, T: NumHash + Sync>(out: &mut Vec<Box<dyn HItem + 'a>>, ty: &'static str, v: &'a [Item<T>]) {
+    for it in v {
+        out.push(Box::new(H { it, ty }));
+    }
+}
+fn i128_bytes(x: i128) -> Vec<u8> {
+    let mut h = RecHasher::default();
+    x.hash(&mut h);
+    h.0
+}
+
+fn hash_sweep(ctx: &mut Ctx, tab: &Tab, items: &[Box<dyn HItem + '_>]) {
+    // first member of every group of numerically equal values (primitives come first in `items`)
+    let mut first: BTreeMap<u32, usize> = BTreeMap::new();
+    let mut types_in_group: BTreeMap<u32, BTreeSet<&str>> = BTreeMap::new();
+    for (i, it) in items.iter().enumerate() {
+        let r = tab.rank[it.id() as usize];
+        if r != NAN_RANK {
+            first.entry(r).or_insert(i);
+            types_in_group.entry(r).or_default().insert(it.ty());
+        }
+    }
+    ctx.bound("hash.groups_of_equal_values", first.len() as u64);
+    ctx.bound("hash.groups_with_two_or_more_types", types_in_group.values().filter(|s| s.len() > 1).count() as u64);
+    let (first, tig) = (&first, &types_in_group);
+    ctx.sweep("hash.equal-values", items.len() as u64, |i, rec| {
+        let it = &items[i as usize];
+        let id = it.id() as usize;
+        rec.step();
+        let mine = match guard(|| it.bytes()) {
+            Ok(b) => b,
+            Err(p) => {
+                rec.fail(format!("{}|{}::num_hash|panic|{}", P, site(it.ty()), tab.cls[id]), it.how().to_string(), p, "a hash");
+                return;
+            }
+        };
+        if tab.nan[id] {
+            rec.hit("nan:not-judged");
+            return;
+        }
+        let formula = ref_hash(&tab.vals[id]).map(i128_bytes);
+        match &formula {
+            Some(f) if *f == mine => rec.hit("agrees-with-documented-formula(n*d^-1 mod 2^127-1)"),
+            Some(_) => rec.hit("differs-from-documented-formula(not judged by itself)"),
+            None => rec.hit("formula-undefined(denominator = 0 mod 2^127-1)"),
+        }
+        let r = tab.rank[id];
+        let g = first[&r];
+        if tig[&r].len() > 1 {
+            rec.hit("value-present-in-several-types");
+        } else {
+            rec.hit("value-present-in-one-type-only");
+        }
+        if !tab.vals[id].is_zero() && tab.vals[id].is_finite_nonzero() {
+            rec.nontrivial();
+        }
+        if tab.cls[id] == "+inf" || tab.cls[id] == "-inf" {
+            rec.hit("infinity");
+        }
+        if g as u64 == i {
+            return;
+        }
+        let anchor = &items[g];
+        rec.step();
+        match guard(|| anchor.bytes()) {
+            Ok(theirs) if theirs == mine => rec.hit("equal-hash-as-first-member-of-group"),
+            Ok(theirs) => {
+                // blame the side that leaves the documented formula
+                let blamed = match &formula {
+                    Some(f) if *f == mine && *f != theirs => anchor.ty(),
+                    _ => it.ty(),
+                };
+                rec.fail(format!("{}|{}::num_hash|unequal-hash-for-equal-values|{}", P, site(blamed), tab.cls[id]), format!("{}  and  {}", it.how(), anchor.how()), format!("hasher input {:02x?} vs {:02x?}", mine, theirs), "numerically equal values feed the hasher identically");
+            }
+            Err(_) => {} // reported at the anchor's own case
+        }
+        rec.sample(|| format!("num_hash: {}  ==  {}", it.how(), anchor.how()));
+    });
+    ctx.require_classes("hash.equal-values", &["equal-hash-as-first-member-of-group", "value-present-in-several-types", "agrees-with-documented-formula(n*d^-1 mod 2^127-1)", "infinity"]);
+}
+
+// ---------------------------------------------------------------------------------------------
+// inventory cross-check and reference self-checks
+
+/// (file, trait pattern, number of textual impl lines the block lists below were written from)
+const INVENTORY: [(&str, &str, usize); 7] = [
+    ("integer/src/third_party/num_order.rs", "NumOrd<", 16),
+    ("float/src/third_party/num_order.rs", "NumOrd<", 16),
+    ("rational/src/third_party/num_order.rs", "NumOrd<", 13),
+    ("integer/src/cmp.rs", "AbsOrd", 4),
+    ("float/src/cmp.rs", "AbsOrd", 5),
+    ("rational/src/cmp.rs", "AbsOrd", 10),
+    ("base/src/sign.rs", "AbsOrd", 2),
+];
+
+fn inventory_check(ctx: &mut Ctx) {
+    // the dashu checkout this binary was built against (path dependency of dv/Cargo.toml)
+    let toml = include_str!("../Cargo.toml");
+    let root = toml.lines().find(|l| l.starts_with("dashu-int")).and_then(|l| l.split("path = \"").nth(1)).and_then(|r| r.split('"').next()).map(|p| p.trim_end_matches("/integer").to_string());
+    let root = match root {
+        Some(r) => r,
+        None => {
+            ctx.bound("inventory_cross_check", "skipped: dashu path not found in Cargo.toml");
+            return;
+        }
+    };
+    let mut checked = 0;
+    for (file, pat, expect) in INVENTORY {
+        match std::fs::read_to_string(format!("{}/{}", root, file)) {
+            Ok(src) => {
+                let n = src.lines().filter(|l| l.trim_start().starts_with("impl") && l.contains(pat)).count();
+                if n != expect {
+                    ctx.machinery(format!("impl inventory out of date: {} has {} `impl … {}` lines, the check was written for {}", file, n, pat, expect));
+                }
+                checked += 1;
+            }
+            Err(_) => {}
+        }
+    }
+    ctx.bound("inventory_cross_check", format!("{} of {} source files counted against the inventory", checked, INVENTORY.len()));
+}
+
+fn self_check(ctx: &mut Ctx, f64v: &[f64], ints: &[BigInt]) {
+    // log2 enclosures
+    for (fam, l) in [(10u32, std::f64::consts::LOG2_10), (3, 3f64.log2()), (36, 36f64.log2())] {
+        let (lo, hi) = log2_fam(fam);
+        let (lo, hi) = (lo as f64 / (1u64 << FX) as f64, hi as f64 / (1u64 << FX) as f64);
+        if !(lo <= l + 1e-11 && l - 1e-11 <= hi && hi - lo < 1e-11) {
+            ctx.machinery(format!("log2 enclosure of {} is wrong: [{}, {}]", fam, lo, hi));
+        }
+    }
+    // order of binary64 values against the hardware
+    let mut n = 0u64;
+    for &a in f64v {
+        for &b in f64v {
+            if a.is_nan() || b.is_nan() {
+                continue;
+            }
+            n += 1;
+            if Some(vcmp(&val_f64(a), &val_f64(b))) != a.partial_cmp(&b) {
+                ctx.machinery(format!("reference order disagrees with the hardware on {:e} vs {:e}", a, b));
+                return;
+            }
+        }
+    }
+    // integers against i128
+    let small: Vec<i128> = ints.iter().filter_map(|x| NumCast::from(x.clone())).collect();
+    for &a in small.iter().step_by(3) {
+        for &b in &small {
+            n += 1;
+            if vcmp(&val_int(&BigInt::from(a)), &val_int(&BigInt::from(b))) != a.cmp(&b) {
+                ctx.machinery(format!("reference order disagrees with i128 on {} vs {}", a, b));
+                return;
+            }
+        }
+    }
+    // symbolic (astronomic) comparison against materialised rationals at moderate exponents
+    let mut forced = vec![];
+    for base in [2u32, 10, 16, 3] {
+        for e in [300i64, -300, 320, 5000, -5000, 4990] {
+            for s in [1i64, -1, base as i64 - 1, 7 * base as i64] {
+                let s = BigInt::from(s);
+                forced.push((val_scaled_thr(&s, base, e, 0.0), Rat::scaled(&s, base, e)));
+            }
+        }
+    }
+    let before = UNDECIDED.load(std::sync::atomic::Ordering::Relaxed);
+    let (mut decided, mut undecided) = (0u64, 0u64);
+    for (va, ra) in &forced {
+        for (vb, rb) in &forced {
+            let u0 = UNDECIDED.load(std::sync::atomic::Ordering::Relaxed);
+            let c = vcmp(va, vb);
+            if UNDECIDED.load(std::sync::atomic::Ordering::Relaxed) != u0 {
+                undecided += 1;
+                continue;
+            }
+            decided += 1;
+            if c != ra.cmp(rb) {
+                ctx.machinery(format!("symbolic order disagrees with the exact rationals on {} vs {}", va.show(), vb.show()));
+                return;
+            }
+        }
+        // and against a materialised value
+        for probe in [Rat::from_i(1), Rat::from_i(-5), Rat::new(BigInt::one(), p2(200))] {
+            let c = vcmp(va, &Val::Fin(probe.clone()));
+            decided += 1;
+            if c != ra.cmp(&probe) {
+                ctx.machinery(format!("symbolic order disagrees with the exact rationals on {} vs {}", va.show(), probe.show()));
+                return;
+            }
+        }
+    }
+    UNDECIDED.store(before, std::sync::atomic::Ordering::Relaxed);
+    if decided < 5000 || undecided > decided / 4 {
+        ctx.machinery(format!("symbolic-order self-check too weak: {} decided, {} undecided", decided, undecided));
+    }
+    // hash formula against num-order's own primitive implementations
+    for &x in f64v {
+        if x.is_nan() {
+            continue;
+        }
+        let mut h = RecHasher::default();
+        x.num_hash(&mut h);
+        n += 1;
+        if ref_hash(&val_f64(x)).map(i128_bytes) != Some(h.0) {
+            ctx.machinery(format!("reference hash formula disagrees with num-order's f64 hash on {:e}", x));
+            return;
+        }
+    }
+    for &a in &small {
+        let mut h = RecHasher::default();
+        a.num_hash(&mut h);
+        if ref_hash(&val_int(&BigInt::from(a))).map(i128_bytes) != Some(h.0) {
+            ctx.machinery(format!("reference hash formula disagrees with num-order's i128 hash on {}", a));
+            return;
+        }
+    }
+    ctx.bound("reference_self_check_comparisons", n + decided);
+}
+
+// ---------------------------------------------------------------------------------------------
+
+fn leak(s: String) -> &'static str {
+    Box::leak(s.into_boxed_str())
+}
+
+struct Ints {
+    ub: Vec<Item<UBig>>,
+    ib: Vec<Item<IBig>>,
+}
+
+macro_rules! ord_m {
+    ($bl:expr, $tab:expr, $na:expr, $va:expr, $deep:expr, $nb:expr, $vb:expr) => {
+        add_ord($bl, $tab, $na, $va, $nb, $vb, $deep, Astro3::SkipNear)
+    };
+}
+
+/// Repr<B> and FBig<_,B> against the integers and the primitives
+fn add_float_base<'a, const B: Word>(bl: &mut Blocks<'a>, tab: &'a Tab, fl: &'a FL<B>, it: &'a Ints, pr: &'a Prims, deep: bool) {
+    let rn = leak(format!("Repr<{}>", B));
+    let zn = leak(format!("FBig<Zero,{}>", B));
+    let hn = leak(format!("FBig<HalfAway,{}>", B));
+    ord_m!(bl, tab, rn, &fl.r, deep, "UBig", &it.ub);
+    ord_m!(bl, tab, rn, &fl.r, deep, "IBig", &it.ib);
+    ord_m!(bl, tab, zn, &fl.z, deep, "UBig", &it.ub);
+    ord_m!(bl, tab, hn, &fl.h, deep, "IBig", &it.ib);
+    each_prim!(ord_m, pr, (bl, tab, rn, &fl.r, deep));
+    each_prim!(ord_m, pr, (bl, tab, zn, &fl.z, deep));
+}
+
+fn add_float_cross<'a, const B1: Word, const B2: Word>(bl: &mut Blocks<'a>, tab: &'a Tab, a: &'a FL<B1>, b: &'a FL<B2>, deep: bool, mode: Astro3) {
+    let n = |k: &str, b: Word| leak(format!("{}{}>", k, b));
+    if B1 <= B2 {
+        add_ord(bl, tab, n("Repr<", B1), &a.r, n("Repr<", B2), &b.r, deep, mode);
+    }
+    add_ord(bl, tab, n("FBig<Zero,", B1), &a.z, n("FBig<HalfAway,", B2), &b.h, deep, mode);
+}
+
+fn add_float_abs<'a, const B: Word>(bl: &mut Blocks<'a>, tab: &'a Tab, fl: &'a FL<B>, fp: &'a [Item<FBig<mode::Zero, B>>], it: &'a Ints, rb: &'a [Item<RBig>], rx: &'a [Item<Relaxed>]) {
+    let rn = leak(format!("Repr<{}>", B));
+    let zn = leak(format!("FBig<Zero,{}>", B));
+    let m = Astro3::SkipNear;
+    add_abs(bl, tab, zn, fp, zn, fp, m);
+    add_abs(bl, tab, zn, &fl.z, zn, &fl.z, m);
+    add_abs(bl, tab, rn, &fl.r, "UBig", &it.ub, m);
+    add_abs(bl, tab, rn, &fl.r, "IBig", &it.ib, m);
+    add_abs(bl, tab, zn, &fl.z, "UBig", &it.ub, m);
+    add_abs(bl, tab, zn, &fl.z, "IBig", &it.ib, m);
+    add_abs(bl, tab, "RBig", rb, zn, &fl.z, m);
+    add_abs(bl, tab, "Relaxed", rx, zn, &fl.z, m);
+}
+
+fn astro_sub<T: Clone>(tab: &Tab, v: &[Item<T>]) -> Vec<Item<T>> {
+    v.iter().filter(|it| tab.l2[it.id as usize] != i64::MIN && tab.l2[it.id as usize].abs() >= (1 << 19) && tab.l2[it.id as usize].abs() <= (1 << 24)).map(|it| Item { x: it.x.clone(), id: it.id, how: it.how.clone() }).collect()
+}
+fn astro_fl<const B: Word>(tab: &Tab, fl: &FL<B>) -> FL<B> {
+    FL { z: astro_sub(tab, &fl.z), h: astro_sub(tab, &fl.h), r: astro_sub(tab, &fl.r) }
+}
 
 pub fn run(ctx: &mut Ctx) {
-    ctx.machinery("check C14 is not built yet");
+    ctx.rule = "for every ordered pair of types (A, B) with a NumOrd<B> for A impl (UBig, IBig, the 12 primitive integer types, f32, f64, Repr<B>/FBig<R,B> for bases 2, 10, 16 (+3 thorough), RBig, Relaxed; inventory from the three third_party/num_order.rs files) all pairs (a, b) of the value lists of the two types go through num_partial_cmp, num_cmp, num_eq/ne (and num_lt/le/gt/ge) in both directions; likewise abs_cmp for every AbsOrd pair (including the primitive impls of dashu-base); expected = order of the exact real values (NaN unordered: None / documented panic). Value lists: integers = closed universe I3 (quick: atoms {0,1,2,2^32,2^63,MAX-1,MAX}) + [-20,20] + neighbourhoods of 2^24, 2^53, 2^64, 2^128, of every primitive bound and of the f32/f64 range limits; primitives = those points that fit, floats +-0, +-inf, NaN, subnormals, anchors with next_up/next_down, all of F(2,3,4); FBig/Repr = F(B,P,E) + the integer anchors + (2^k+-1)/2^j + exact copies (+-1 in the last place) of f64 anchors + 1-digit significands at exponents +-300, +-5000, +-10^6, +-10^9, +-inf, precisions cycling over {0, digits, digits+5}; rationals = Q(N,D) unreduced for Relaxed, reduced for RBig, + the same anchors + multi-word fractions with common factors. NumHash: every value of every type is hashed into a recording hasher and compared with the first member of its group of numerically equal values. non-trivial = both values finite and non-zero".into();
+    ctx.assume("reference = exact rationals over num_bigint; values with |exponent|*log2(base) > 40000 are compared symbolically (same base family: exact exponent alignment; otherwise disjoint log2 enclosures computed with integer arithmetic) — the self-check compares the symbolic order with materialised rationals at exponents 300 and 5000");
+    ctx.assume("pairs of values that are both astronomically scaled (|log2| >= 2^19) and close to each other (log2 within 2^-16 relative) are exercised only up to |log2| <= 2^24 (sweep ord.astro-near); for |exponent| = 10^9 such pairs are not run: deciding them needs 10^9-digit numbers (a resource question, C16), every other pair with such a value is run");
+    ctx.assume("hash: the property demands equal hasher input for numerically equal values; agreement with num-order's documented formula is only recorded, not judged; +inf / -inf of FBig, f32, f64 are treated as numerically equal among themselves (num_eq says so)");
+    let quick = ctx.quick();
+    let deep = !quick;
+    inventory_check(ctx);
+
+    // ---- universes
+    let mut bd = Builder::default();
+    let ints = int_points(quick, ctx.seed);
+    let it = Ints {
+        ub: ints.iter().filter(|n| !n.is_negative()).map(|n| bd.item(ref_to_u(n.magnitude()), val_int(n), format!("UBig {}", show_int(n)))).collect(),
+        ib: ints.iter().map(|n| bd.item(ref_to_i(n), val_int(n), format!("IBig {}", show_int(n)))).collect(),
+    };
+    let small2 = f_universe(2, 3, 4);
+    let (f32v, f64v) = (f32_points(&small2), f64_points(&small2));
+    self_check(ctx, &f64v, &ints);
+    let pr = build_prims(&mut bd, &ints, &f32v, &f64v);
+    let (g2, g10, g16) = if quick { ((4, 5), (2, 3), (1, 4)) } else { ((6, 8), (3, 3), (2, 4)) };
+    let fl2 = build_fl::<2>(&mut bd, &float_points(2, g2.0, g2.1));
+    let fl10 = build_fl::<10>(&mut bd, &float_points(10, g10.0, g10.1));
+    let fl16 = build_fl::<16>(&mut bd, &float_points(16, g16.0, g16.1));
+    let fl3 = build_fl::<3>(&mut bd, &if quick { vec![] } else { float_points(3, 3, 5) });
+    let fp2 = build_fp::<2>(&mut bd, ctx.pick(3, 4), ctx.pick(4, 6));
+    let fp10 = build_fp::<10>(&mut bd, ctx.pick(1, 2), ctx.pick(4, 3));
+    let fp16 = build_fp::<16>(&mut bd, 1, ctx.pick(2, 4));
+    let fp3 = build_fp::<3>(&mut bd, 2, 3);
+    let q = ctx.pick((8i64, 8i64), (24, 24));
+    let rats = rat_points(q.0, q.1, &ints);
+    let mut rb: Vec<Item<RBig>> = vec![];
+    let mut rx: Vec<Item<Relaxed>> = vec![];
+    for (k, (n, d)) in rats.iter().enumerate() {
+        let v = Val::Fin(Rat::new(n.clone(), d.clone()));
+        let reduced = n.gcd(d).is_one();
+        let how = format!("{}/{}", show_int(n), show_int(d));
+        rx.push(bd.item(Relaxed::from_parts(ref_to_i(n), ref_to_u(d.magnitude())), v.clone(), format!("Relaxed {}", how)));
+        // RBig: every reduced spelling, and the multi-word unreduced ones (from_parts reduces)
+        if reduced || d.bits() > 64 || k % 7 == 0 {
+            rb.push(bd.item(RBig::from_parts(ref_to_i(n), ref_to_u(d.magnitude())), v, format!("RBig {}", how)));
+        }
+    }
+    let tab = Tab::build(std::mem::take(&mut bd.vals));
+    let und = UNDECIDED.load(std::sync::atomic::Ordering::Relaxed);
+    if und != 0 {
+        ctx.machinery(format!("the reference could not decide {} comparisons while ranking the universe", und));
+    }
+    ctx.bound("values_total(all types)", tab.vals.len() as u64);
+    ctx.bound("distinct_exact_values", tab.distinct as u64);
+    ctx.bound("integers(IBig list)", it.ib.len() as u64);
+    ctx.bound("f32_values", pr.f32s.len() as u64);
+    ctx.bound("f64_values", pr.f64s.len() as u64);
+    ctx.bound("float_values_base2/10/16/3", serde_json::json!([fl2.r.len(), fl10.r.len(), fl16.r.len(), fl3.r.len()]));
+    ctx.bound("rational_values(Relaxed/RBig)", serde_json::json!([rx.len(), rb.len()]));
+    ctx.bound("huge_exponents", serde_json::json!(HUGE_EXPS.to_vec()));
+    let tab = &tab;
+
+    // ---- NumOrd: integer crate
+    {
+        let mut bl = Blocks::new();
+        ord_m!(&mut bl, tab, "UBig", &it.ub, deep, "UBig", &it.ub);
+        ord_m!(&mut bl, tab, "UBig", &it.ub, deep, "IBig", &it.ib);
+        ord_m!(&mut bl, tab, "IBig", &it.ib, deep, "IBig", &it.ib);
+        each_prim!(ord_m, pr, (&mut bl, tab, "UBig", &it.ub, deep));
+        each_prim!(ord_m, pr, (&mut bl, tab, "IBig", &it.ib, deep));
+        bl.run(ctx, "ord.integer");
+        ctx.require_classes("ord.integer", &["rel:less", "rel:equal", "rel:greater", "rel:unordered(NaN)", "num_cmp-panics-on-NaN", "adjacent-in-universe", "near(|log2 a - log2 b| <= 2)"]);
+    }
+    // ---- NumOrd: float crate
+    {
+        let mut bl = Blocks::new();
+        add_float_base(&mut bl, tab, &fl2, &it, &pr, deep);
+        add_float_base(&mut bl, tab, &fl10, &it, &pr, deep);
+        add_float_base(&mut bl, tab, &fl16, &it, &pr, deep);
+        let m = Astro3::SkipNear;
+        add_float_cross(&mut bl, tab, &fl2, &fl2, deep, m);
+        add_float_cross(&mut bl, tab, &fl2, &fl10, deep, m);
+        add_float_cross(&mut bl, tab, &fl2, &fl16, deep, m);
+        add_float_cross(&mut bl, tab, &fl10, &fl2, deep, m);
+        add_float_cross(&mut bl, tab, &fl10, &fl10, deep, m);
+        add_float_cross(&mut bl, tab, &fl10, &fl16, deep, m);
+        add_float_cross(&mut bl, tab, &fl16, &fl2, deep, m);
+        add_float_cross(&mut bl, tab, &fl16, &fl10, deep, m);
+        add_float_cross(&mut bl, tab, &fl16, &fl16, deep, m);
+        if !quick {
+            add_float_base(&mut bl, tab, &fl3, &it, &pr, deep);
+            add_float_cross(&mut bl, tab, &fl3, &fl3, deep, m);
+            add_float_cross(&mut bl, tab, &fl3, &fl2, deep, m);
+            add_float_cross(&mut bl, tab, &fl3, &fl10, deep, m);
+            add_float_cross(&mut bl, tab, &fl2, &fl3, deep, m);
+            add_float_cross(&mut bl, tab, &fl10, &fl3, deep, m);
+        }
+        bl.run(ctx, "ord.float");
+        ctx.require_classes("ord.float", &["rel:less", "rel:equal", "rel:greater", "rel:unordered(NaN)", "num_cmp-panics-on-NaN", "adjacent-in-universe", "near(|log2 a - log2 b| <= 2)", "skipped:close-pair-at-astronomic-scale"]);
+    }
+    // ---- NumOrd: rational crate
+    {
+        let mut bl = Blocks::new();
+        ord_m!(&mut bl, tab, "RBig", &rb, deep, "Relaxed", &rx);
+        ord_m!(&mut bl, tab, "RBig", &rb, deep, "UBig", &it.ub);
+        ord_m!(&mut bl, tab, "RBig", &rb, deep, "IBig", &it.ib);
+        ord_m!(&mut bl, tab, "Relaxed", &rx, deep, "UBig", &it.ub);
+        ord_m!(&mut bl, tab, "Relaxed", &rx, deep, "IBig", &it.ib);
+        each_prim!(ord_m, pr, (&mut bl, tab, "RBig", &rb, deep));
+        each_prim!(ord_m, pr, (&mut bl, tab, "Relaxed", &rx, deep));
+        ord_m!(&mut bl, tab, "RBig", &rb, deep, "FBig<Zero,2>", &fl2.z);
+        ord_m!(&mut bl, tab, "RBig", &rb, deep, "FBig<HalfAway,10>", &fl10.h);
+        ord_m!(&mut bl, tab, "RBig", &rb, deep, "FBig<Zero,16>", &fl16.z);
+        ord_m!(&mut bl, tab, "Relaxed", &rx, deep, "FBig<HalfAway,2>", &fl2.h);
+        ord_m!(&mut bl, tab, "Relaxed", &rx, deep, "FBig<Zero,10>", &fl10.z);
+        ord_m!(&mut bl, tab, "Relaxed", &rx, deep, "FBig<HalfAway,16>", &fl16.h);
+        if !quick {
+            ord_m!(&mut bl, tab, "RBig", &rb, deep, "FBig<Zero,3>", &fl3.z);
+            ord_m!(&mut bl, tab, "Relaxed", &rx, deep, "FBig<Zero,3>", &fl3.z);
+        }
+        bl.run(ctx, "ord.rational");
+        ctx.require_classes("ord.rational", &["rel:less", "rel:equal", "rel:greater", "rel:unordered(NaN)", "num_cmp-panics-on-NaN", "adjacent-in-universe", "near(|log2 a - log2 b| <= 2)"]);
+    }
+    // ---- AbsOrd
+    {
+        let mut bl = Blocks::new();
+        let m = Astro3::SkipNear;
+        add_abs(&mut bl, tab, "i8", &pr.i8s, "i8", &pr.i8s, m);
+        add_abs(&mut bl, tab, "i16", &pr.i16s, "i16", &pr.i16s, m);
+        add_abs(&mut bl, tab, "i32", &pr.i32s, "i32", &pr.i32s, m);
+        add_abs(&mut bl, tab, "i64", &pr.i64s, "i64", &pr.i64s, m);
+        add_abs(&mut bl, tab, "i128", &pr.i128s, "i128", &pr.i128s, m);
+        add_abs(&mut bl, tab, "isize", &pr.isizes, "isize", &pr.isizes, m);
+        add_abs(&mut bl, tab, "f32", &pr.f32s, "f32", &pr.f32s, m);
+        add_abs(&mut bl, tab, "f64", &pr.f64s, "f64", &pr.f64s, m);
+        add_abs(&mut bl, tab, "UBig", &it.ub, "UBig", &it.ub, m);
+        add_abs(&mut bl, tab, "IBig", &it.ib, "IBig", &it.ib, m);
+        add_abs(&mut bl, tab, "IBig", &it.ib, "UBig", &it.ub, m);
+        add_abs(&mut bl, tab, "RBig", &rb, "RBig", &rb, m);
+        add_abs(&mut bl, tab, "RBig", &rb, "Relaxed", &rx, m);
+        add_abs(&mut bl, tab, "Relaxed", &rx, "Relaxed", &rx, m);
+        add_abs(&mut bl, tab, "RBig", &rb, "UBig", &it.ub, m);
+        add_abs(&mut bl, tab, "RBig", &rb, "IBig", &it.ib, m);
+        add_abs(&mut bl, tab, "Relaxed", &rx, "UBig", &it.ub, m);
+        add_abs(&mut bl, tab, "Relaxed", &rx, "IBig", &it.ib, m);
+        add_float_abs(&mut bl, tab, &fl2, &fp2, &it, &rb, &rx);
+        add_float_abs(&mut bl, tab, &fl10, &fp10, &it, &rb, &rx);
+        add_float_abs(&mut bl, tab, &fl16, &fp16, &it, &rb, &rx);
+        if !quick {
+            add_float_abs(&mut bl, tab, &fl3, &fp3, &it, &rb, &rx);
+        }
+        bl.run(ctx, "abs");
+        ctx.require_classes("abs", &["rel:less", "rel:equal", "rel:greater", "rel:unordered(NaN)", "abs_cmp-panics-on-NaN", "equal-magnitude-opposite-sign", "adjacent-in-universe"]);
+    }
+    // ---- close pairs at an astronomic scale (|exponent| = 10^6): the exact path on huge numbers
+    {
+        let (a2, a10, a16) = (astro_fl(tab, &fl2), astro_fl(tab, &fl10), astro_fl(tab, &fl16));
+        let (aub, aib) = (astro_sub(tab, &it.ub), astro_sub(tab, &it.ib));
+        let (aub, aib) = (&aub, &aib);
+        ctx.bound("astro_near_values_base2/10/16", serde_json::json!([a2.r.len(), a10.r.len(), a16.r.len()]));
+        let mut bl = Blocks::new();
+        let m = Astro3::OnlyNear;
+        add_float_cross(&mut bl, tab, &a2, &a2, false, m);
+        add_float_cross(&mut bl, tab, &a2, &a16, false, m);
+        add_float_cross(&mut bl, tab, &a16, &a2, false, m);
+        add_float_cross(&mut bl, tab, &a16, &a16, false, m);
+        add_float_cross(&mut bl, tab, &a10, &a10, false, m);
+        add_ord(&mut bl, tab, "Repr<2>", &a2.r, "UBig", aub, false, m);
+        add_ord(&mut bl, tab, "Repr<2>", &a2.r, "IBig", aib, false, m);
+        add_ord(&mut bl, tab, "FBig<Zero,2>", &a2.z, "UBig", aub, false, m);
+        add_ord(&mut bl, tab, "FBig<Zero,2>", &a2.z, "IBig", aib, false, m);
+        add_ord(&mut bl, tab, "Repr<16>", &a16.r, "UBig", aub, false, m);
+        add_ord(&mut bl, tab, "Repr<16>", &a16.r, "IBig", aib, false, m);
+        add_ord(&mut bl, tab, "FBig<Zero,16>", &a16.z, "UBig", aub, false, m);
+        add_ord(&mut bl, tab, "FBig<Zero,16>", &a16.z, "IBig", aib, false, m);
+        add_ord(&mut bl, tab, "UBig", aub, "IBig", aib, false, m);
+        add_abs(&mut bl, tab, "Repr<2>", &a2.r, "UBig", aub, m);
+        add_abs(&mut bl, tab, "Repr<2>", &a2.r, "IBig", aib, m);
+        add_abs(&mut bl, tab, "FBig<Zero,2>", &a2.z, "UBig", aub, m);
+        add_abs(&mut bl, tab, "FBig<Zero,2>", &a2.z, "IBig", aib, m);
+        add_abs(&mut bl, tab, "Repr<16>", &a16.r, "UBig", aub, m);
+        add_abs(&mut bl, tab, "Repr<16>", &a16.r, "IBig", aib, m);
+        add_abs(&mut bl, tab, "FBig<Zero,16>", &a16.z, "UBig", aub, m);
+        add_abs(&mut bl, tab, "FBig<Zero,16>", &a16.z, "IBig", aib, m);
+        add_abs(&mut bl, tab, "IBig", aib, "UBig", aub, m);
+        add_abs(&mut bl, tab, "FBig<Zero,2>", &a2.z, "FBig<Zero,2>", &a2.z, m);
+        add_abs(&mut bl, tab, "FBig<Zero,10>", &a10.z, "FBig<Zero,10>", &a10.z, m);
+        add_abs(&mut bl, tab, "FBig<Zero,16>", &a16.z, "FBig<Zero,16>", &a16.z, m);
+        bl.run(ctx, "ord.astro-near");
+        ctx.require_classes("ord.astro-near", &["rel:less", "rel:equal", "rel:greater"]);
+    }
+    // ---- NumHash
+    {
+        let mut items: Vec<Box<dyn HItem + '_>> = vec![];
+        macro_rules! hp {
+            ($x:expr, $y:expr, $name:expr, $list:expr) => {
+                push_h(&mut items, $name, $list)
+            };
+        }
+        each_prim!(hp, pr, (0, 0));
+        push_h(&mut items, "UBig", &it.ub);
+        push_h(&mut items, "IBig", &it.ib);
+        push_h(&mut items, "RBig", &rb);
+        push_h(&mut items, "Relaxed", &rx);
+        push_h(&mut items, "Repr<2>", &fl2.r);
+        push_h(&mut items, "FBig<Zero,2>", &fl2.z);
+        push_h(&mut items, "Repr<10>", &fl10.r);
+        push_h(&mut items, "FBig<HalfAway,10>", &fl10.h);
+        push_h(&mut items, "Repr<16>", &fl16.r);
+        push_h(&mut items, "FBig<Zero,16>", &fl16.z);
+        push_h(&mut items, "Repr<3>", &fl3.r);
+        push_h(&mut items, "FBig<Zero,3>", &fp3);
+        hash_sweep(ctx, tab, &items);
+    }
+    let und = UNDECIDED.load(std::sync::atomic::Ordering::Relaxed);
+    if und != 0 {
+        ctx.machinery(format!("the reference could not decide {} comparisons", und));
+    }
+    let _ = (BigInt::zero().is_negative(), &fp3);
 }
